@@ -32,6 +32,7 @@ def run(binary, entry, inputs, timeout=10.0):
     violated = []
     outcome = None
     diverged = False
+    live = None
     for line in out.splitlines():
         p = line.split()
         if not p:
@@ -44,6 +45,8 @@ def run(binary, entry, inputs, timeout=10.0):
             outcome = p[1]
         elif p[0] == "DIVERGED":
             diverged = True
+        elif p[0] == "LIVE-ALLOCS":
+            live = int(p[1])
         elif p[0] == "ASSUME-FAILED":
             outcome = "assume-false"
     if rc == "timeout":
@@ -52,4 +55,4 @@ def run(binary, entry, inputs, timeout=10.0):
         outcome = "abort" if rc == -6 else "signal%d" % (-rc)
     elif outcome is None:
         outcome = "exit%s" % rc
-    return {"outcome": outcome, "events": events, "violated": violated, "diverged": diverged, "rc": rc}
+    return {"outcome": outcome, "events": events, "violated": violated, "diverged": diverged, "rc": rc, "live": live}
